@@ -105,6 +105,14 @@ def view(t, depth=0):
             return _sub(v, f["start"], f["end"])
         if kind == "RangeToInclusive" and f.get("end") is not None:
             return _sub(v, 0, f["end"] + 1)
+    if t[0] == "payload" and len(t) == 2 and _is(t[1], "slice::first_chunk", "slice::first_chunk_mut") and len(t[1][2]) == 2 and _const(t[1][2][1]) is not None:
+        # `s.first_chunk::<N>()` on its Some side: the first N bytes
+        return _sub(view(t[1][2][0], depth + 1), 0, _const(t[1][2][1]))
+    if len(t) == 3 and t[0] == "field" and t[2] in ("0", "1") and isinstance(t[1], tuple) and len(t[1]) == 2 and t[1][0] == "payload" \
+            and _is(t[1][1], "slice::split_first_chunk", "slice::split_first_chunk_mut") and len(t[1][1][2]) == 2 and _const(t[1][1][2][1]) is not None:
+        n_ = _const(t[1][1][2][1])
+        v = view(t[1][1][2][0], depth + 1)
+        return _sub(v, 0, n_) if t[2] == "0" else _sub(v, n_, None)
     if t[0] == "subslice_at" and len(t) == 5:
         v = _close(view(t[1], depth + 1))
         if not t[4]:
@@ -151,6 +159,17 @@ def prefix_view(t):
         x = ("call", "core::ops::index::Index::index", x[1][2], 0)
     if _is(x, "Index::index", "IndexMut::index_mut") and len(x[2]) == 2 and isinstance(x[2][1], tuple) and len(x[2][1]) == 4 and x[2][1][0] == "agg" and str(x[2][1][1]).rsplit("::", 1)[-1] == "RangeTo":
         return (_close(view(x[2][0])), dict(x[2][1][3]).get("end"))
+    if _is(x, "Index::index", "IndexMut::index_mut") and len(x[2]) == 2 and isinstance(x[2][1], tuple) and len(x[2][1]) == 4 and x[2][1][0] == "agg" and str(x[2][1][1]).rsplit("::", 1)[-1] == "Range":
+        # `s[a..a + n]` with a constant a: the first n bytes of s[a..]
+        d = dict(x[2][1][3])
+        a = _const(d.get("start"))
+        e = d.get("end")
+        if isinstance(e, tuple) and len(e) == 3 and e[0] == "field" and e[2] == "0":
+            e = e[1]
+        if a is not None and isinstance(e, tuple) and len(e) == 4 and e[0] == "binop" and e[1].startswith("Add"):
+            for p_, q_ in ((e[2], e[3]), (e[3], e[2])):
+                if _const(p_) == a:
+                    return (_sub(_close(view(x[2][0])), a, None), q_)
     if isinstance(x, tuple) and len(x) == 3 and x[0] == "field" and x[2] == "0" and _is(x[1], "slice::split_at") and len(x[1][2]) == 2:
         return (_close(view(x[1][2][0])), x[1][2][1])
     return None
